@@ -186,6 +186,24 @@ func (u *Universe) AddIndex(kind Kind, manifests []int, subject int, artifactTyp
 	return u.add(n)
 }
 
+// BundleMT: a media type of the caller's own whose content lists further descriptors - the
+// kind of node a custom FindSuccessors makes a non-leaf.
+const BundleMT = "application/vnd.verif.bundle.v1+json"
+
+// AddBundle adds a node of the custom bundle type over the given children.
+func (u *Universe) AddBundle(children []int, tag string) *Node {
+	b, err := json.Marshal(struct {
+		Tag      string               `json:"tag"`
+		Children []ocispec.Descriptor `json:"children"`
+	}{tag, u.descs(children)})
+	if err != nil {
+		panic(err)
+	}
+	n := &Node{Kind: KBlob, Subject: -1, Config: -1, Succ: append([]int(nil), children...), Bytes: b}
+	n.Desc = u.desc(BundleMT, b)
+	return u.add(n)
+}
+
 func (u *Universe) AddArtifact(blobs []int, subject int, artifactType string, ann map[string]string) *Node {
 	a := spec.Artifact{
 		MediaType:    spec.MediaTypeArtifactManifest,
